@@ -1,16 +1,21 @@
 //! C05 — each enabled, started span completes exactly once; disabled spans never do.
 //! Drives the REAL `emit::span::SpanGuard` with arbitrary operation lists (all instantiated at one concrete
-//! type so any order type-checks) and the REAL `emit::span::completion::Default`.
+//! type so any order type-checks) and the REAL `emit::span::completion::Default`; the completions sit behind the crate's
+//! adapters (`&C`, `completion::from_fn`, `completion::from_emitter`, `dyn ErasedCompletion (+ Send + Sync)`, `Empty`)
+//! and the guard holds its clock as `T`, `&T`, `Option<T>`, `Box<T>`, `Arc<T>`, `AssertInternal<T>`, `&dyn ErasedClock`,
+//! `Box<dyn ErasedClock + Send + Sync>`.
 //! Case formats: see lean/EmitModel/Driver/C05.lean.
 
-use std::cell::RefCell;
 use std::collections::VecDeque;
 use std::ops::ControlFlow;
-use std::rc::Rc;
+use std::sync::{Arc, Mutex};
 use std::time::Duration;
 
-use emit::span::{completion::Completion, Span, SpanGuard};
+use emit::props::ErasedProps;
+use emit::span::completion::{self, Completion, ErasedCompletion};
+use emit::span::{Span, SpanGuard};
 use emit::{Clock, Props, Str, Timestamp, Value};
+use emit_core::clock::ErasedClock;
 use hcommon::{catch, Rng, Sexp, Stream, Tier};
 
 pub fn streams() -> Vec<Stream> {
@@ -22,12 +27,13 @@ pub fn streams() -> Vec<Stream> {
 
 // ------------------------------------------------------------------ test doubles
 
+/// every `now()` pops one scripted reading (`Send + Sync`, so it can also sit behind `dyn ErasedClock + Send + Sync`)
 #[derive(Clone)]
-struct ScriptClock(Rc<RefCell<VecDeque<Option<u64>>>>);
+struct ScriptClock(Arc<Mutex<VecDeque<Option<u64>>>>);
 
 impl Clock for ScriptClock {
     fn now(&self) -> Option<Timestamp> {
-        let r = self.0.borrow_mut().pop_front().flatten();
+        let r = self.0.lock().unwrap().pop_front().flatten();
         r.and_then(|s| Timestamp::from_unix(Duration::from_secs(s)))
     }
 }
@@ -45,7 +51,7 @@ impl Props for PV {
     }
 }
 
-type CallLog = Rc<RefCell<Vec<String>>>;
+type CallLog = Arc<Mutex<Vec<String>>>;
 
 fn show_props<P: Props>(p: P) -> String {
     let mut items = Vec::new();
@@ -80,11 +86,67 @@ impl Completion for Rec {
             show_props(span.props()),
             show_extent(span.extent()),
         );
-        self.1.borrow_mut().push(line);
+        self.1.lock().unwrap().push(line);
     }
 }
 
-type G = SpanGuard<'static, ScriptClock, PV, Rec>;
+type SpanFn<'a> = Box<dyn for<'s, 'p> Fn(Span<'s, &'p dyn ErasedProps>) + 'a>;
+type EvtFn<'a> = Box<dyn for<'e, 'p> Fn(emit::Event<'e, &'p dyn ErasedProps>) + 'a>;
+
+/// The completion a guard of the op-list interpreter holds: a recorder behind one of the crate's adapters. The enum
+/// only routes the GENERIC call `complete::<P>` to the adapter's own `Completion` impl.
+enum AnyComp<'a> {
+    Rec(Rec),
+    Ref(&'a Rec),
+    FromFn(completion::FromFn<SpanFn<'a>>),
+    FromEmitter(completion::FromEmitter<emit::emitter::FromFn<EvtFn<'a>>>),
+    Erased(&'a dyn ErasedCompletion),
+    ErasedSS(&'a (dyn ErasedCompletion + Send + Sync)),
+    Empty(emit::Empty),
+}
+
+impl<'a> Completion for AnyComp<'a> {
+    fn complete<P: Props>(&self, span: Span<P>) {
+        match self {
+            AnyComp::Rec(c) => c.complete(span),
+            AnyComp::Ref(c) => <&Rec as Completion>::complete(c, span),
+            AnyComp::FromFn(c) => c.complete(span),
+            AnyComp::FromEmitter(c) => c.complete(span),
+            AnyComp::Erased(c) => <&dyn ErasedCompletion as Completion>::complete(c, span),
+            AnyComp::ErasedSS(c) => <&(dyn ErasedCompletion + Send + Sync) as Completion>::complete(c, span),
+            AnyComp::Empty(c) => c.complete(span),
+        }
+    }
+}
+
+impl<'a> AnyComp<'a> {
+    /// recorder `rec` behind the adapter named `ad`
+    fn of(ad: &str, rec: &'a Rec) -> Option<AnyComp<'a>> {
+        Some(match ad {
+            "rec" => AnyComp::Rec(rec.clone()),
+            "ref" => AnyComp::Ref(rec),
+            "fromfn" => AnyComp::FromFn(completion::from_fn(Box::new(move |span: Span<&dyn ErasedProps>| rec.complete(span)) as SpanFn<'a>)),
+            "fromemitter" => {
+                // the recorder is an EMITTER here: it sees the span as an event
+                let (n, log) = (rec.0, rec.1.clone());
+                AnyComp::FromEmitter(completion::from_emitter(emit::emitter::from_fn(Box::new(move |evt: emit::Event<&dyn ErasedProps>| {
+                    log.lock().unwrap().push(format!(
+                        "({} evt {} {} {} {})",
+                        n,
+                        Sexp::str(&evt.mdl().to_string()),
+                        Sexp::str(&evt.tpl().to_string()),
+                        show_props(evt.props()),
+                        show_extent(evt.extent())
+                    ));
+                }) as EvtFn<'a>)))
+            }
+            "erased" => AnyComp::Erased(rec),
+            "erasedss" => AnyComp::ErasedSS(rec),
+            "empty" => AnyComp::Empty(emit::Empty),
+            _ => return None,
+        })
+    }
+}
 
 fn kvs(items: &[Sexp]) -> Option<Vec<(String, String)>> {
     items
@@ -104,14 +166,30 @@ fn clock(items: &[Sexp]) -> Option<ScriptClock> {
     for r in items {
         q.push_back(if r.as_atom()? == "none" { None } else { Some(r.as_u64()?) });
     }
-    Some(ScriptClock(Rc::new(RefCell::new(q))))
+    Some(ScriptClock(Arc::new(Mutex::new(q))))
+}
+
+/// `(comp N [AD])` / `(cwith N [AD])` → (N, AD)
+fn comp_spec(a: &[Sexp]) -> Option<(u64, String)> {
+    match a.len() {
+        1 => Some((a[0].as_u64()?, "rec".to_string())),
+        2 => Some((a[0].as_u64()?, a[1].as_atom()?.to_string())),
+        _ => None,
+    }
+}
+
+fn op_parts(op: &Sexp) -> Option<(&str, &[Sexp])> {
+    match op {
+        Sexp::Atom(a) => Some((a.as_str(), &[])),
+        Sexp::List(_) => op.as_tagged(),
+    }
 }
 
 fn run_c05(line: &str) -> String {
     (|| -> Option<String> {
         let s = Sexp::parse(line)?;
         let (tag, args) = s.as_tagged()?;
-        if tag != "c05" || args.len() != 3 {
+        if tag != "c05" || !(args.len() == 3 || args.len() == 4) {
             return None;
         }
         let enabled = args[0].as_bool()?;
@@ -120,73 +198,101 @@ fn run_c05(line: &str) -> String {
         if ct != "clock" || ot != "ops" || ops.is_empty() {
             return None;
         }
-        let clk = clock(rs)?;
-        let log: CallLog = Rc::new(RefCell::new(Vec::new()));
-        let (guard, _frame) = SpanGuard::new(
-            emit::filter::from_fn(move |_| enabled),
-            emit::Empty,
-            clk,
-            emit::Empty,
-            Rec(0, log.clone()),
-            emit::Empty,
-            emit::Path::new_raw("m0"),
-            "n0",
-            PV(vec![("p".into(), "0".into())]),
-        );
-        let mut g: Option<G> = Some(guard);
-        let mut rets = Vec::new();
-        let mut en = Vec::new();
-        for (i, op) in ops.iter().enumerate() {
-            let last = i + 1 == ops.len();
-            let cur = g.take()?; // an op after a terminal is malformed
-            let (name, a): (&str, &[Sexp]) = match op {
-                Sexp::Atom(a) => (a.as_str(), &[]),
-                Sexp::List(_) => op.as_tagged()?,
-            };
-            let is_terminal = matches!(name, "complete" | "cwith" | "drop");
-            if is_terminal != last {
-                return None;
-            }
-            match (name, a.len()) {
-                ("start", 0) => {
-                    let mut c = cur;
-                    c.start();
-                    g = Some(c);
-                }
-                ("mdl", 1) => g = Some(cur.with_mdl(emit::Path::new_owned_raw(a[0].as_string()?))),
-                ("name", 1) => g = Some(cur.with_name(Str::new_owned(a[0].as_string()?))),
-                ("props", _) => g = Some(cur.with_props(PV(kvs(a)?))),
-                ("map", _) => {
-                    let extra = kvs(a)?;
-                    g = Some(cur.map_props(move |p: PV| {
-                        let mut v = extra;
-                        v.extend(p.0);
-                        PV(v)
-                    }))
-                }
-                ("comp", 1) => g = Some(cur.with_completion(Rec(a[0].as_u64()?, log.clone()))),
-                ("complete", 0) => rets.push(cur.complete()),
-                ("cwith", 1) => rets.push(cur.complete_with(Rec(a[0].as_u64()?, log.clone()))),
-                ("drop", 0) => drop(cur),
-                _ => return None,
-            }
-            if let Some(g) = &g {
-                en.push(g.is_enabled());
-            }
+        let holder = if args.len() == 4 { args[3].as_atom()? } else { "direct" };
+        let sc = clock(rs)?;
+        // how the guard holds the clock
+        match holder {
+            "direct" => run_ops(sc, enabled, ops),
+            "ref" => run_ops(&sc, enabled, ops),
+            "some" => run_ops(Some(sc), enabled, ops),
+            "none" => run_ops(None::<ScriptClock>, enabled, ops),
+            "box" => run_ops(Box::new(sc), enabled, ops),
+            "arc" => run_ops(Arc::new(sc), enabled, ops),
+            "assert" => run_ops(emit::runtime::AssertInternal(sc), enabled, ops),
+            "dyn" => run_ops(&sc as &dyn ErasedClock, enabled, ops),
+            "dynss" => run_ops(Box::new(sc) as Box<dyn ErasedClock + Send + Sync>, enabled, ops),
+            _ => None,
         }
-        let calls = log.borrow().join(" ");
-        let ncalls = log.borrow().len();
-        let out = format!("calls=({}) rets={:?} enabled={:?}", calls, rets, en);
-        // implementation-side oracle: the property evaluated on the real outputs alone
-        let started = ops.iter().any(|o| o.as_atom() == Some("start"));
-        let expected = if enabled && started { 1 } else { 0 };
-        Some(if ncalls == expected {
-            out
-        } else {
-            format!("{}\tFAIL:completions={}-expected={}", out, ncalls, expected)
-        })
     })()
     .unwrap_or_else(|| "bad-case".into())
+}
+
+fn run_ops<K: Clock>(clk: K, enabled: bool, ops: &[Sexp]) -> Option<String> {
+    let log: CallLog = Arc::new(Mutex::new(Vec::new()));
+    // the recorders the completions of this case deliver to, one per op that names one (they outlive the guards)
+    let mut recs: Vec<Option<Rec>> = Vec::new();
+    for op in ops {
+        let (name, a) = op_parts(op)?;
+        recs.push(if matches!(name, "comp" | "cwith") { Some(Rec(comp_spec(a)?.0, log.clone())) } else { None });
+    }
+    let rec0 = Rec(0, log.clone());
+    let (guard, _frame) = SpanGuard::new(
+        emit::filter::from_fn(move |_| enabled),
+        emit::Empty,
+        clk,
+        emit::Empty,
+        AnyComp::Rec(rec0),
+        emit::Empty,
+        emit::Path::new_raw("m0"),
+        "n0",
+        PV(vec![("p".into(), "0".into())]),
+    );
+    let mut g: Option<SpanGuard<'static, K, PV, AnyComp<'_>>> = Some(guard);
+    let mut rets = Vec::new();
+    let mut en = Vec::new();
+    // the adapter of the completion in force (for the oracle only)
+    let mut in_force = "rec".to_string();
+    for (i, op) in ops.iter().enumerate() {
+        let last = i + 1 == ops.len();
+        let cur = g.take()?; // an op after a terminal is malformed
+        let (name, a) = op_parts(op)?;
+        let is_terminal = matches!(name, "complete" | "cwith" | "drop");
+        if is_terminal != last {
+            return None;
+        }
+        match (name, a.len()) {
+            ("start", 0) => {
+                let mut c = cur;
+                c.start();
+                g = Some(c);
+            }
+            ("mdl", 1) => g = Some(cur.with_mdl(emit::Path::new_owned_raw(a[0].as_string()?))),
+            ("name", 1) => g = Some(cur.with_name(Str::new_owned(a[0].as_string()?))),
+            ("props", _) => g = Some(cur.with_props(PV(kvs(a)?))),
+            ("map", _) => {
+                let extra = kvs(a)?;
+                g = Some(cur.map_props(move |p: PV| {
+                    let mut v = extra;
+                    v.extend(p.0);
+                    PV(v)
+                }))
+            }
+            ("comp", _) => {
+                let (_, ad) = comp_spec(a)?;
+                g = Some(cur.with_completion(AnyComp::of(&ad, recs[i].as_ref()?)?));
+                in_force = ad;
+            }
+            ("complete", 0) => rets.push(cur.complete()),
+            ("cwith", _) => {
+                let (_, ad) = comp_spec(a)?;
+                rets.push(cur.complete_with(AnyComp::of(&ad, recs[i].as_ref()?)?));
+                in_force = ad;
+            }
+            ("drop", 0) => drop(cur),
+            _ => return None,
+        }
+        if let Some(g) = &g {
+            en.push(g.is_enabled());
+        }
+    }
+    let calls = log.lock().unwrap().join(" ");
+    let ncalls = log.lock().unwrap().len();
+    let out = format!("calls=({}) rets={:?} enabled={:?}", calls, rets, en);
+    // implementation-side oracle: the property evaluated on the real outputs alone — exactly one delivery for an
+    // enabled started span through every adapter (`Empty` swallows it), none otherwise
+    let started = ops.iter().any(|o| o.as_atom() == Some("start"));
+    let expected = if enabled && started && in_force != "empty" { 1 } else { 0 };
+    Some(if ncalls == expected { out } else { format!("{}\tFAIL:completions={}-expected={}", out, ncalls, expected) })
 }
 
 // ------------------------------------------------------------------ the default completion
@@ -222,9 +328,10 @@ fn run_c05d(line: &str) -> String {
     (|| -> Option<String> {
         let s = Sexp::parse(line)?;
         let (tag, args) = s.as_tagged()?;
-        if tag != "c05d" || args.len() != 8 {
+        if tag != "c05d" || !(args.len() == 8 || args.len() == 9) {
             return None;
         }
+        let via = if args.len() == 9 { args[8].as_atom()? } else { "ref" };
         let enabled = args[0].as_bool()?;
         let lvl = opt_str(&args[1])?;
         let plvl = opt_str(&args[2])?;
@@ -242,10 +349,10 @@ fn run_c05d(line: &str) -> String {
         let clk = clock(rs)?;
         let ambient = kvs(amb)?;
         let sprops = kvs(sps)?;
-        let log: CallLog = Rc::new(RefCell::new(Vec::new()));
+        let log: CallLog = Arc::new(Mutex::new(Vec::new()));
         let log2 = log.clone();
-        let emitter = emit::emitter::from_fn(move |evt| {
-            log2.borrow_mut().push(format!(
+        let emitter = emit::emitter::from_fn(move |evt: emit::Event<&dyn ErasedProps>| {
+            log2.lock().unwrap().push(format!(
                 "({} {} {} {})",
                 Sexp::str(&evt.mdl().to_string()),
                 Sexp::str(&evt.tpl().to_string()),
@@ -265,35 +372,46 @@ fn run_c05d(line: &str) -> String {
             completion = completion.with_panic_lvl(level_of(l)?);
         }
         let completion = if tpl.is_some() { completion.with_tpl(emit::Template::new_ref(&tpl_parts)) } else { completion };
-        let (mut guard, _frame) = SpanGuard::new(
-            emit::filter::from_fn(move |_| enabled),
-            emit::Empty,
-            clk,
-            emit::Empty,
-            &completion,
-            emit::Empty,
-            emit::Path::new_raw("m0"),
-            "n0",
-            PV(sprops),
-        );
-        guard.start();
-        match exit.as_str() {
-            "drop" => drop(guard),
-            "complete" => {
-                guard.complete();
-            }
-            _ => {
-                // the guard is dropped by unwinding
-                let _ = catch(move || {
-                    let _g = guard;
-                    panic!("scripted");
-                });
-            }
+        // how the default completion is handed to the guard: every way must give the same event
+        match via {
+            "ref" => run_default(&completion, enabled, clk, sprops, &exit),
+            "erased" => run_default(&completion as &dyn ErasedCompletion, enabled, clk, sprops, &exit),
+            "erasedss" => run_default(&completion as &(dyn ErasedCompletion + Send + Sync), enabled, clk, sprops, &exit),
+            "fromfn" => run_default(completion::from_fn(|span: Span<&dyn ErasedProps>| completion.complete(span)), enabled, clk, sprops, &exit),
+            _ => return None,
         }
-        let out = format!("({})", log.borrow().join(" "));
+        let out = format!("({})", log.lock().unwrap().join(" "));
         Some(out)
     })()
     .unwrap_or_else(|| "bad-case".into())
+}
+
+fn run_default<F: Completion>(completion: F, enabled: bool, clk: ScriptClock, sprops: Vec<(String, String)>, exit: &str) {
+    let (mut guard, _frame) = SpanGuard::new(
+        emit::filter::from_fn(move |_| enabled),
+        emit::Empty,
+        clk,
+        emit::Empty,
+        completion,
+        emit::Empty,
+        emit::Path::new_raw("m0"),
+        "n0",
+        PV(sprops),
+    );
+    guard.start();
+    match exit {
+        "drop" => drop(guard),
+        "complete" => {
+            guard.complete();
+        }
+        _ => {
+            // the guard is dropped by unwinding
+            let _ = catch(move || {
+                let _g = guard;
+                panic!("scripted");
+            });
+        }
+    }
 }
 
 // ------------------------------------------------------------------ generators
@@ -315,6 +433,18 @@ fn gen_clock(rng: &mut Rng) -> Sexp {
     Sexp::tagged("clock", items)
 }
 
+pub const ADAPTERS: [&str; 7] = ["rec", "ref", "fromfn", "fromemitter", "erased", "erasedss", "empty"];
+pub const HOLDERS: [&str; 9] = ["direct", "ref", "some", "none", "box", "arc", "assert", "dyn", "dynss"];
+
+/// a recorder id, half of the time behind an adapter
+fn with_adapter(rng: &mut Rng, lo: u64, span: u64) -> Vec<Sexp> {
+    let mut v = vec![Sexp::num(lo + rng.below(span))];
+    if rng.bool() {
+        v.push(Sexp::atom(*rng.pick(&ADAPTERS)));
+    }
+    v
+}
+
 fn gen_c05(rng: &mut Rng, tier: Tier, n: usize) -> Vec<String> {
     let max_ops = if tier == Tier::Thorough { 16 } else { 9 };
     (0..n)
@@ -328,15 +458,19 @@ fn gen_c05(rng: &mut Rng, tier: Tier, n: usize) -> Vec<String> {
                     4 => Sexp::tagged("name", vec![Sexp::str(*rng.pick(&STRS))]),
                     5 => Sexp::tagged("props", gen_kvs(rng, 2)),
                     6 => Sexp::tagged("map", gen_kvs(rng, 2)),
-                    _ => Sexp::tagged("comp", vec![Sexp::num(1 + rng.below(4))]),
+                    _ => Sexp::tagged("comp", with_adapter(rng, 1, 4)),
                 });
             }
             ops.push(match rng.below(3) {
                 0 => Sexp::atom("drop"),
                 1 => Sexp::atom("complete"),
-                _ => Sexp::tagged("cwith", vec![Sexp::num(5 + rng.below(3))]),
+                _ => Sexp::tagged("cwith", with_adapter(rng, 5, 3)),
             });
-            Sexp::tagged("c05", vec![Sexp::bool(rng.chance(2, 3)), gen_clock(rng), Sexp::tagged("ops", ops)]).to_string()
+            let mut items = vec![Sexp::bool(rng.chance(2, 3)), gen_clock(rng), Sexp::tagged("ops", ops)];
+            if rng.bool() {
+                items.push(Sexp::atom(*rng.pick(&HOLDERS)));
+            }
+            Sexp::tagged("c05", items).to_string()
         })
         .collect()
 }
@@ -346,20 +480,20 @@ fn gen_c05d(rng: &mut Rng, _tier: Tier, n: usize) -> Vec<String> {
     (0..n)
         .map(|_| {
             let opt = |rng: &mut Rng, xs: &[&str]| if rng.bool() { Sexp::str(*rng.pick(xs)) } else { Sexp::atom("none") };
-            Sexp::tagged(
-                "c05d",
-                vec![
-                    Sexp::bool(rng.chance(4, 5)),
-                    opt(rng, &LV),
-                    opt(rng, &LV),
-                    opt(rng, &["done", "é {x}", ""]),
-                    gen_clock(rng),
-                    Sexp::tagged("ambient", gen_kvs(rng, 3)),
-                    Sexp::tagged("spanprops", gen_kvs(rng, 3)),
-                    Sexp::atom(*rng.pick(&["drop", "complete", "panic"])),
-                ],
-            )
-            .to_string()
+            let mut items = vec![
+                Sexp::bool(rng.chance(4, 5)),
+                opt(rng, &LV),
+                opt(rng, &LV),
+                opt(rng, &["done", "é {x}", ""]),
+                gen_clock(rng),
+                Sexp::tagged("ambient", gen_kvs(rng, 3)),
+                Sexp::tagged("spanprops", gen_kvs(rng, 3)),
+                Sexp::atom(*rng.pick(&["drop", "complete", "panic"])),
+            ];
+            if rng.bool() {
+                items.push(Sexp::atom(*rng.pick(&["ref", "erased", "erasedss", "fromfn"])));
+            }
+            Sexp::tagged("c05d", items).to_string()
         })
         .collect()
 }
